@@ -20,15 +20,17 @@ pub fn render_pragma(p: &Value) -> String {
 
 /// Body with known flag lines. Returns (text, safemath lines, string-require lines, long-string lines),
 /// line numbers relative to the first line of the body (1-based).
-fn body() -> (String, Vec<i32>, Vec<i32>, Vec<i32>) {
+fn body(file_level_using: bool) -> (String, Vec<i32>, Vec<i32>, Vec<i32>) {
     let s31 = "a".repeat(31);
     let s32 = "b".repeat(32);
     let s33 = "c".repeat(33);
     let m32 = "é".repeat(16); // 16 characters, 32 bytes
     let m31 = format!("{}z", "é".repeat(15)); // 16 characters, 31 bytes
+    // the `using` directive either inside the contract or at file level (line count kept equal)
     let lines: Vec<(String, &str)> = vec![
+        ((if file_level_using { "using SafeMath for uint256;" } else { "library Unrelated {}" }).into(), ""),
         ("contract Gated {".into(), ""),
-        ("    using SafeMath for uint256;".into(), ""),
+        ((if file_level_using { "    uint256 filler;" } else { "    using SafeMath for uint256;" }).into(), ""),
         ("    uint256 total;".into(), ""),
         ("    function f(uint256 a, uint256 b) public {".into(), ""),
         ("        total = a.add(b);".into(), "S"),
@@ -94,8 +96,9 @@ pub fn replay(behaviours: &str, out: &mut Outcome) {
             return;
         }
     };
-    let (body_text, s, r, l) = body();
+    let bodies = [body(false), body(true)];
     for (idx, rec) in recs.iter().enumerate() {
+        let (body_text, s, r, l) = &bodies[if rec["usingAt"] == "file" { 1 } else { 0 }];
         let header = rec["header"].as_array().cloned().unwrap_or_default();
         let mut src = String::from("// SPDX-License-Identifier: MIT\n");
         for p in header.iter() {
@@ -103,7 +106,7 @@ pub fn replay(behaviours: &str, out: &mut Outcome) {
             src.push('\n');
         }
         let off = 1 + header.len() as i32;
-        src.push_str(&body_text);
+        src.push_str(body_text);
         let ver = as_i64s(&rec["ver"]);
         out.evaluations += 1;
         if header.len() > 1 || header.iter().any(|p| p["op"] != "") {
@@ -127,7 +130,7 @@ pub fn replay(behaviours: &str, out: &mut Outcome) {
             Err(m) => out.violate("version-extract:panic", format!("version extraction panicked: {}", m), case.clone()),
         }
         let names = ["safe_math_pre_080", "safe_math_post_080", "string_errors", "short_revert_string"];
-        let flagged = [&s, &s, &r, &l];
+        let flagged = [s, s, r, l];
         for k in 0..4 {
             let gate = rec["gates"][names[k]].as_bool().unwrap_or(false);
             let expect: BTreeSet<i32> = if gate { flagged[k].iter().map(|x| x + off).collect() } else { BTreeSet::new() };
@@ -142,8 +145,9 @@ pub fn replay(behaviours: &str, out: &mut Outcome) {
                             if ver[1] < 8 { "m<8" } else if ver[1] == 8 { "m=8" } else { "m>8" },
                             if ver[2] < 4 { "p<4" } else { "p>=4" }
                         );
+                        let place = if rec["usingAt"] == "file" { ":file-level-using" } else { "" };
                         out.violate(
-                            &format!("gate:{}:{}:{}:{}", names[k], side, cls, if shape.len() > 1 && shape[0] != "solidity" { "other-pragma-first" } else { "solidity-first" }),
+                            &format!("gate:{}:{}:{}:{}{}", names[k], side, cls, if shape.len() > 1 && shape[0] != "solidity" { "other-pragma-first" } else { "solidity-first" }, place),
                             format!("{} on version {}{:?} (header {:?}) reports {:?}, expected {:?}", names[k], op, ver, shape, got, expect),
                             json!({"source": src, "detector": names[k], "observed": got, "expected": expect, "version": ver}),
                         );
